@@ -92,6 +92,20 @@ pub open spec fn canonical(config: RouterConfig, s: Seq<char>, r: PathAndQueryWi
     }
 }
 
+// statement: "matching does not depend ... on ASCII letter case when case-insensitivity is configured" together with "... on the order of query
+// parameters": under ignore_path_and_query_case the matching form is DETERMINED BY THE CASE-FOLDED URL — it is the canonical rendering (parameter map of
+// the folded URL, marketing keys set aside) of lower(sanitized(s)), folded once more (percent-escapes are re-encoded in upper case). Two spellings of one
+// URL that differ only in letter case then have the same matching form whatever order their keys sort in as written.
+pub open spec fn ci_canonical(config: RouterConfig, s: Seq<char>, r: PathAndQueryWithSkipped) -> bool {
+    let u = lower(sanitized(s));
+    r.path_and_query_matching matches Some(m) && match pq_parse(u) {
+        None => m@ == lower(u),
+        Some(pv) => match pv.1 {
+            None => m@ == lower(pv.0),
+            Some(q) => exists|es: Seq<(String, String)>| #[trigger] enumerates(es, qmap(q)) && m@ == lower(with_q(pv.0, render(es, eff_mk(config), false))),
+        },
+    }
+}
 // C09 "marketing parameters are ignored for matching": the matching query is the rendering of the NON-marketing entries alone — a
 // marketing parameter (any value, any number of them) contributes nothing to it; dually the skipped list only sees marketing entries
 pub open spec fn only(es: Seq<(String, String)>, mk: Set<String>, marketing: bool) -> Seq<(String, String)>
@@ -112,6 +126,7 @@ impl PathAndQueryWithSkipped {
     //@@ fn src/http/query.rs :: impl PathAndQueryWithSkipped / fn from_config -> r
     //@| ensures pq_parse(sanitized(path_and_query_str@)) is None ==> plain(*config, path_and_query_str@, r),
     //@|     pq_parse(sanitized(path_and_query_str@)) matches Some(pv) ==> canonical(*config, path_and_query_str@, r, pv.0, pv.1),
+    //@|     config.ignore_path_and_query_case ==> ci_canonical(*config, path_and_query_str@, r),
     //@| outline `url.parse()` => `outl_parse_pq(&url)`
     //@| outline `parse_query(query.as_bytes()).into_owned().collect()` => `outl_parse_query(query)`
     //@| outline `utf8_percent_encode(key, QUERY_ENCODE_SET).to_string()` => `outl_enc_q(key)` || `utf8_percent_encode(key, URL_ENCODE_SET).to_string()` => `outl_enc_u(key)`
